@@ -1,13 +1,13 @@
 """Per-property profiles of the tree pipeline (constants of the TLC runs, enabled
 operations, which predicates decide the property)."""
 
-BASE = {"Keys": {1, 2}, "Vals": {1, 2, 3}, "WeakKeys": set(), "MaxSeq": 5, "MaxSealed": 2, "MaxTables": 3,
-        "MaxSnaps": 0, "MaxHist": 4, "DestLevels": {0, 1, 6}, "SampleK": 1,
+BASE = {"Keys": {1, 2}, "Vals": {1, 2, 3}, "WeakKeys": set(), "MaxSeq": 5, "MaxSealed": 1,
+        "MaxTables": 3, "MaxSnaps": 0, "MaxHist": 3, "DestLevels": {0, 1, 6}, "SampleK": 1,
         "MinLen": 1, "WriteBias": 1}
 
 ASSUME = [
     "usage protocol of DESIGN.md section 5 (seqnos from the counter handed to Config, snapshots read from visible_seqno, watermarks below every held snapshot)",
-    "TLC explores the LsmTree model exhaustively only within the stated constants; larger histories are sampled by simulation",
+    "TLC explores the LsmTree model exhaustively only within the stated constants; larger histories are sampled by simulation and by the free-running driver",
     "the harness projection (lsm_tree::verif::dump, Table::iter, Memtable::iter) reports the real state faithfully",
     "model keys/values are mapped to bytes by the concretisations in harness/src/model.rs",
 ]
@@ -23,60 +23,117 @@ def c(**kw):
 
 
 CORE_OPS = {"write", "batch", "rotate", "flush", "merge", "move", "major", "reopen"}
-
+CORE1 = CORE_OPS - {"batch"}
+SNAP_OPS = {"write", "rotate", "flush", "merge", "move", "major", "snap"}
+# position-free operations: the real strategies choose, the trace spec checks the choice
+BUILTIN_OPS = {"write", "rotate", "flush", "leveled", "major", "reopen"}
 WEAK_OPS = {"write", "rotate", "flush", "merge", "move", "major", "reopen"}
 
+DRIVE_W = {"write": 10, "batch": 1, "rotate": 2, "flush": 3, "leveled": 5, "major": 0.3, "reopen": 0.3}
+DRIVE_SNAP_W = dict(DRIVE_W, snap=0.8, release=0.6)
+
+
+def tree_profile(nkeys, viol_kinds, quick_verify, quick_gen, thorough_verify, thorough_gen, **kw):
+    p = {"nkeys": nkeys, "invariants": ALL_INV, "viol_kinds": viol_kinds,
+         "phys_count": 24, "key_alphas": [0, 1, 2, 3], "assumptions": ASSUME,
+         "quick": {"verify": {"constants": quick_verify}, "gen": quick_gen},
+         "thorough": {"verify": {"constants": thorough_verify, "timeout": 3000, "workers": 12},
+                      "gen": thorough_gen}}
+    p.update(kw)
+    return p
+
+
+def sim(num, depth, **kw):
+    return {"mode": "sim", "num": num, "depth": depth, "constants": c(**kw)}
+
+
+def edges(sample_k, mx, timeout=600, **kw):
+    return {"mode": "edges", "sample_k": sample_k, "max": mx, "timeout": timeout, "constants": c(**kw)}
+
+
+def drv(count, steps, weights, nkeys=None, **kw):
+    d = {"mode": "drive", "count": count, "steps": steps, "weights": weights, "kw": kw}
+    if nkeys:
+        d["nkeys"] = nkeys
+    return d
+
+
 PROFILES = {
-    "C13": {
-        "nkeys": 2,
-        "invariants": ALL_INV,
-        "viol_kinds": ["READ", "SCAN", "OPFAIL"],
-        "phys_count": 8, "key_alphas": [0, 2],
-        "assumptions": ASSUME,
-        "quick": {
-            "verify": {"constants": c(Keys={1}, WeakKeys={1}, Vals={1, 2, 3}, MaxSeq=7, MaxSealed=1,
-                                      MaxHist=3, DestLevels={0, 6}, Ops=WEAK_OPS)},
-            "gen": [
-                {"mode": "sim", "num": 40, "depth": 22,
-                 "constants": c(Keys={1, 2}, WeakKeys={1, 2}, Vals={1, 2, 3}, MaxSeq=16, MaxTables=5,
-                                MaxHist=20, MaxSealed=1, Ops=WEAK_OPS, WriteBias=2)},
-            ],
-        },
-        "thorough": {
-            "verify": {"constants": c(Keys={1}, WeakKeys={1}, Vals={1, 2, 3}, MaxSeq=9, MaxSealed=2,
-                                      MaxHist=3, Ops=WEAK_OPS), "timeout": 3000, "workers": 12},
-            "gen": [
-                {"mode": "sim", "num": 800, "depth": 30,
-                 "constants": c(Keys={1, 2}, WeakKeys={1, 2}, Vals={1, 2, 3}, MaxSeq=24, MaxTables=6,
-                                MaxHist=30, MaxSealed=2, Ops=WEAK_OPS, WriteBias=2)},
-            ],
-        },
-    },
-    "C01": {
-        "nkeys": 3,
-        "invariants": ALL_INV,
-        "viol_kinds": ["READ", "OPFAIL"],
-        "phys_count": 24, "key_alphas": [0, 1, 2, 3],
-        "assumptions": ASSUME,
-        "quick": {
-            "verify": {"constants": c(Ops=CORE_OPS - {"batch"}, MaxSeq=5, MaxSealed=1, MaxHist=3)},
-            "gen": [
-                {"mode": "sim", "num": 60, "depth": 22,
-                 "constants": c(MaxSeq=14, MaxTables=5, MaxHist=20, MaxSealed=1,
-                                Ops=CORE_OPS - {"batch"}, WriteBias=3)},
-                {"mode": "edges", "sample_k": 60, "max": 2500,
-                 "constants": c(Ops=CORE_OPS - {"batch"}, MaxSeq=6, MaxSealed=1, MaxHist=3, MinLen=9)},
-            ],
-        },
-        "thorough": {
-            "verify": {"constants": c(Ops=CORE_OPS, MaxSeq=6, MaxSealed=1, MaxHist=3), "timeout": 3000,
-                       "workers": 12},
-            "gen": [
-                {"mode": "sim", "num": 1500, "depth": 30,
-                 "constants": c(Keys={1, 2, 3}, MaxSeq=24, MaxTables=6, MaxHist=30, Ops=CORE_OPS, WriteBias=4)},
-                {"mode": "edges", "sample_k": 6, "max": 80000, "timeout": 2400,
-                 "constants": c(Ops=CORE_OPS - {"batch"}, MaxSeq=6, MaxSealed=1, MaxHist=3, MinLen=9)},
-            ],
-        },
-    },
+    # C01 point reads at the newest snapshot
+    "C01": tree_profile(
+        6, ["READ", "OPFAIL"],
+        c(Ops=CORE1, MaxSeq=5),
+        [sim(50, 22, MaxSeq=14, MaxTables=5, MaxHist=20, MaxSealed=2, Ops=CORE1, WriteBias=3),
+         edges(60, 2000, Ops=CORE1, MaxSeq=6, MinLen=9),
+         drv(24, 160, DRIVE_W)],
+        c(Ops=CORE_OPS, MaxSeq=6),
+        [sim(1500, 30, Keys={1, 2, 3}, MaxSeq=24, MaxTables=6, MaxHist=30, Ops=CORE_OPS, WriteBias=4),
+         edges(6, 80000, timeout=2400, Ops=CORE1, MaxSeq=6, MinLen=9),
+         drv(400, 400, DRIVE_W)]),
+    # C02 snapshots keep their view
+    "C02": tree_profile(
+        6, ["READ", "SCAN", "SNAPRES", "OPFAIL"],
+        c(Ops=SNAP_OPS, MaxSeq=5, MaxSnaps=1, MaxHist=4),
+        [sim(50, 24, MaxSeq=16, MaxTables=5, MaxHist=20, MaxSnaps=2, Ops=SNAP_OPS | {"reopen"}, WriteBias=3),
+         edges(80, 2000, Ops=SNAP_OPS, MaxSeq=5, MaxSnaps=2, MaxHist=4, MinLen=8),
+         drv(24, 160, DRIVE_SNAP_W)],
+        c(Ops=SNAP_OPS, MaxSeq=6, MaxSnaps=2, MaxHist=5),
+        [sim(1500, 30, Keys={1, 2, 3}, MaxSeq=24, MaxTables=6, MaxHist=30, MaxSnaps=2,
+             Ops=SNAP_OPS | {"reopen"}, WriteBias=4),
+         edges(8, 80000, timeout=2400, Ops=SNAP_OPS, MaxSeq=5, MaxSnaps=2, MaxHist=4, MinLen=8),
+         drv(400, 400, DRIVE_SNAP_W)]),
+    # C03 scans: bounds, prefixes, both ends, overlay
+    "C03": tree_profile(
+        4, ["SCAN", "SCANX", "OPFAIL"],
+        c(Ops=SNAP_OPS, MaxSeq=5, MaxSnaps=1, MaxHist=4),
+        [sim(30, 22, Keys={1, 2, 3}, MaxSeq=14, MaxTables=5, MaxHist=20, MaxSnaps=2, MaxSealed=2,
+             Ops=SNAP_OPS | {"reopen"}, WriteBias=3),
+         drv(24, 120, DRIVE_SNAP_W)],
+        c(Ops=SNAP_OPS, MaxSeq=6, MaxSnaps=2, MaxHist=5),
+        [sim(800, 30, Keys={1, 2, 3}, MaxSeq=24, MaxTables=6, MaxHist=30, MaxSnaps=2, MaxSealed=2,
+             Ops=SNAP_OPS | {"reopen"}, WriteBias=4),
+         drv(300, 300, DRIVE_SNAP_W)],
+        scans={"prob": 0.6, "burst": 2}),
+    # C04 reopen restores exactly the flushed state
+    "C04": tree_profile(
+        6, ["READ", "SCAN", "INVENT", "LOST", "OPFAIL"],
+        c(Ops=CORE1, MaxSeq=5),
+        [sim(50, 24, MaxSeq=16, MaxTables=5, MaxHist=20, Ops=CORE1 | {"ingest"}, WriteBias=3),
+         edges(60, 2000, Ops=CORE1, MaxSeq=6, MinLen=9),
+         drv(24, 160, dict(DRIVE_W, reopen=2))],
+        c(Ops=CORE_OPS | {"ingest"}, MaxSeq=6),
+        [sim(1500, 30, Keys={1, 2, 3}, MaxSeq=24, MaxTables=6, MaxHist=30, Ops=CORE_OPS | {"ingest"}, WriteBias=4),
+         edges(6, 80000, timeout=2400, Ops=CORE1, MaxSeq=6, MinLen=9),
+         drv(400, 400, dict(DRIVE_W, reopen=2))]),
+    # C07 structure of every published version, metadata
+    "C07": tree_profile(
+        6, ["STRUCT", "META"],
+        c(Ops=CORE1, MaxSeq=5),
+        [sim(50, 22, MaxSeq=14, MaxTables=5, MaxHist=20, Ops=CORE1 | {"ingest"}, WriteBias=3),
+         edges(60, 2000, Ops=CORE1, MaxSeq=6, MinLen=9),
+         drv(24, 160, dict(DRIVE_W, ingest=0.5))],
+        c(Ops=CORE_OPS, MaxSeq=6),
+        [sim(1500, 30, Keys={1, 2, 3}, MaxSeq=24, MaxTables=6, MaxHist=30, Ops=CORE_OPS | {"ingest"}, WriteBias=4),
+         edges(6, 80000, timeout=2400, Ops=CORE1, MaxSeq=6, MinLen=9),
+         drv(400, 400, dict(DRIVE_W, ingest=0.5))]),
+    # C13 weak deletes under the single-delete discipline
+    "C13": tree_profile(
+        4, ["READ", "SCAN", "OPFAIL"],
+        c(Keys={1}, WeakKeys={1}, MaxSeq=7, DestLevels={0, 6}, Ops=WEAK_OPS),
+        [sim(40, 22, WeakKeys={1, 2}, MaxSeq=16, MaxTables=5, MaxHist=20, Ops=WEAK_OPS, WriteBias=2),
+         drv(16, 160, DRIVE_W, weak_keys=(1, 2, 3))],
+        c(Keys={1}, WeakKeys={1}, MaxSeq=9, MaxSealed=2, Ops=WEAK_OPS),
+        [sim(800, 30, WeakKeys={1, 2}, MaxSeq=24, MaxTables=6, MaxHist=30, MaxSealed=2, Ops=WEAK_OPS, WriteBias=2),
+         drv(300, 400, DRIVE_W, weak_keys=(1, 2, 3))],
+        phys_count=8, key_alphas=[0, 2]),
+    # C18 sequence number high-water marks
+    "C18": tree_profile(
+        6, ["HI", "HIA"],
+        c(Ops=CORE1, MaxSeq=5),
+        [sim(50, 22, MaxSeq=14, MaxTables=5, MaxHist=20, Ops=CORE1 | {"ingest", "clear"}, WriteBias=3),
+         drv(24, 160, dict(DRIVE_W, ingest=0.7, clear=0.2, droprange=0.5))],
+        c(Ops=CORE_OPS | {"ingest"}, MaxSeq=6),
+        [sim(1500, 30, Keys={1, 2, 3}, MaxSeq=24, MaxTables=6, MaxHist=30,
+             Ops=CORE_OPS | {"ingest", "clear"}, WriteBias=4),
+         drv(400, 400, dict(DRIVE_W, ingest=0.7, clear=0.2, droprange=0.5))]),
 }
